@@ -591,7 +591,8 @@ def cubes():
            ((8, -1, 4), (12, -3, 5), 5, 0, 1000),          # both descending; crosslines end at line number 0
            ((0, 2, 3), (7, 1, 7), 16, 8, 4000),            # inline number 0 on an ascending axis
            ((100, 10, 2), (3, -1, 2), 4, 0, 4000),         # two lines per axis
-           ((5, 1, 3), (30, 2, 3), 150, 0, 2000)]          # traces longer than one z-block (16 bit: 128 samples per block)
+           ((5, 1, 3), (30, 2, 3), 150, 0, 2000),          # traces longer than one z-block (16 bit: 128 samples per block)
+           ((3, 2, 16), (50, -1, 8), 5, 0, 4000)]          # 128 traces: every stored header array is exactly 512 bytes (footer stride boundary)
     nrand = 3 if quick else 24
     for _ in range(nrand):
         def axis():
